@@ -138,6 +138,12 @@ LiveOrRaise == entered = "returned" => url
 WithinTimeout == entered # "no" => enteredAt <= Timeout
 \* exactly one terminal message per request, whatever the order of POST completion and event arrival
 OneTerminal == (req = "done" => CountOwn = 1) /\ CountOwn <= 1
+\* the terminal message is the server's answer whenever the server gave one in time: an error is
+\* synthesised only for a failed POST or after Timeout units of silence following the 202
+AnswerIsTerminal ==
+  \A i \in DOMAIN readStream : readStream[i] = Own("synth") =>
+     \/ reply \in {"r500", "exc"}
+     \/ reply = "r202" /\ now >= postedAt + Timeout
 \* server messages once and in order
 SrvInOrder ==
   LET idx == {i \in DOMAIN readStream : readStream[i].id = "srv"} IN
